@@ -156,6 +156,49 @@ impl PrefixExpr { pub uninterp spec fn sp_op_token(&self) -> Option<SyntaxToken>
         ('op_token', dict(H, ret='r', trusted=True, note='first_child_or_token / into_token: the first element of the node, if it is a token', spec='ensures r == self.sp_op_token(),')),
         ('op_kind', dict(H, ret='r', spec='ensures r == (match self.sp_op_token() { Some(t) => un_op_of(t.sp_kind()), None => None::<UnaryOp> }),      //@C05,C06:unary-operator-table')),
     ])
+    # Literal::kind: the class of a literal is the class of its token (integer, float, string, bit string, char, byte, true / false)
+    U.raw('''pub mod ast_tokens {
+    use super::*;
+    /// generated/tokens.rs (pinned as a whole file): `cast` succeeds exactly on the token's own kind and keeps the token
+    pub trait AstToken: Sized {
+        spec fn tok_kind() -> SyntaxKind;
+        spec fn sp_syntax(&self) -> SyntaxToken;
+        fn cast(syntax: SyntaxToken) -> (r: Option<Self>) ensures (r is Some) == (syntax.sp_kind() == Self::tok_kind()), r is Some ==> r->Some_0.sp_syntax() == syntax;
+    }
+}
+pub use ast_tokens::AstToken;
+''' + ''.join('''pub struct %s { pub syntax: SyntaxToken }
+impl AstToken for %s {
+    open spec fn tok_kind() -> SyntaxKind { SyntaxKind::%s }
+    open spec fn sp_syntax(&self) -> SyntaxToken { self.syntax }
+    #[verifier::external_body] fn cast(syntax: SyntaxToken) -> (r: Option<Self>) { unimplemented!() }
+}
+''' % (t, t, k) for t, k in [('IntNumber', 'INT_NUMBER'), ('FloatNumber', 'FLOAT_NUMBER'), ('String', 'STRING'), ('BitString', 'BIT_STRING'), ('Char', 'CHAR'), ('Byte', 'BYTE')]) + '''impl Clone for SyntaxToken { #[verifier::external_body] fn clone(&self) -> (r: SyntaxToken) ensures r == *self { unimplemented!() } }
+impl Literal { pub uninterp spec fn sp_token(&self) -> SyntaxToken; }
+/// the literal token kinds
+pub open spec fn is_literal_token(k: SyntaxKind) -> bool {
+    k == SyntaxKind::INT_NUMBER || k == SyntaxKind::FLOAT_NUMBER || k == SyntaxKind::STRING || k == SyntaxKind::BIT_STRING || k == SyntaxKind::CHAR
+        || k == SyntaxKind::BYTE || k == SyntaxKind::TRUE_KW || k == SyntaxKind::FALSE_KW
+}
+''', note='AstToken casts of generated/tokens.rs (by kind; trusted, the file is pinned)')
+    e.item('enum', 'LiteralKind')
+    e.impl('ast::Literal', [
+        ('token', dict(H, ret='r', trusted=True, note='children_with_tokens / find / into_token: the first non-trivia element of the node', spec='ensures r == self.sp_token(),')),
+        ('kind', dict(H, ret='r', spec='''requires is_literal_token(self.sp_token().sp_kind()),       // AP: a LITERAL node is built around a literal token (the `unreachable!()` of the body)
+ensures
+    // the class of a literal is the class of its token, and the token is kept
+    match self.sp_token().sp_kind() {
+        SyntaxKind::INT_NUMBER => r is IntNumber && r->IntNumber_0.syntax == self.sp_token(),
+        SyntaxKind::FLOAT_NUMBER => r is FloatNumber && r->FloatNumber_0.syntax == self.sp_token(),
+        SyntaxKind::STRING => r is String && r->String_0.syntax == self.sp_token(),
+        SyntaxKind::BIT_STRING => r is BitString && r->BitString_0.syntax == self.sp_token(),
+        SyntaxKind::CHAR => r is Char && r->Char_0.syntax == self.sp_token(),
+        SyntaxKind::BYTE => r is Byte && r->Byte_0.syntax == self.sp_token(),
+        SyntaxKind::TRUE_KW => r == LiteralKind::Bool(true),
+        SyntaxKind::FALSE_KW => r == LiteralKind::Bool(false),
+        _ => true,
+    },      //@C05,C06:literal-class-of-its-token''')),
+    ])
     # D41 (BinExpr::op_details): `self.syntax().children_with_tokens().filter_map(|it| it.into_token()).find_map(|c| { BODY })` -- the
     # iterator frame (the first child token for which BODY yields an operator) stays pinned; BODY, the table token kind -> operator, is
     # copied from /repo on every run into oq3_op_of_token and verified against the operator table bin_op_of written from OpenQASM 3
@@ -220,7 +263,8 @@ fn oq3_op_of_token(c: SyntaxToken) -> (r: Option<(SyntaxToken, BinaryOp)>)
     for _rel in ('crates/oq3_syntax/src/ast.rs', 'crates/oq3_syntax/src/ast/traits.rs', 'crates/oq3_syntax/src/token_text.rs'):
         U.file(_rel).guard_file('rowan-level plumbing of the typed AST (support::child / children / token, AstChildren, trait one-liners, TokenText): the stubs of contracts/astx.prelude.rs stand for it; pinned as a whole')
     U.n_pinned += 5
-    U.assumed_parser = ['IF_STMT children: condition expression (not a block), then-body, optional else-body (if_shape)',
+    U.assumed_parser = ['a LITERAL node is built around a literal token (int, float, string, bit string, char, byte, true, false): the `unreachable!()` of Literal::kind',
+                        'IF_STMT children: condition expression (not a block), then-body, optional else-body (if_shape)',
                         'WHILE_STMT children: condition expression (not a block), body (while_shape)',
                         'FOR_STMT children: type, loop variable, iterable, body (for_shape)',
                         'BIN_EXPR children: exactly the two operand expressions; RANGE_EXPR children: 2 or 3 expressions',
@@ -228,5 +272,5 @@ fn oq3_op_of_token(c: SyntaxToken) -> (r: Option<(SyntaxToken, BinaryOp)>)
     U.assumed_dep = ['rowan: SyntaxNode::children() yields the child nodes in source order; AstChildren<N> / support::child keep those N::cast accepts (cast is by kind; Expr and Stmt kinds disjoint)',
                      'std: Option::and / Option::or / Iterator::nth']
     U.not_verified = ['generated/nodes.rs accessors other than ForStmt::body / ForStmt::stmt (support::child / support::token one-liners)',
-                      'token-based accessors (op_details, Literal::kind, pragma_text: string slicing)']
+                      'token-based iterator frames (the `find_map` frame of op_details, Literal::token, PrefixExpr::op_token: pinned), pragma_text (string slicing: bounded Kani stand-in)']
     return U
